@@ -37,8 +37,9 @@ def _child_run(run_seed, ops, opts):
     boot.install_clock(1.7e9 + (run_seed % 100000) * 86400.0)      # simulated time, from the run seed
     opts = dict(opts)
     want_ops = opts.pop("_want_ops", False)
+    deep = opts.pop("deep", False)
     if ops is None:
-        cfg, ops = mod.generate(run_seed)
+        cfg, ops = mod.generate(run_seed, deep=deep)
     w, obligations = mod.execute(S, run_seed, ops, **opts)
     res = {
         "fp": w.fingerprint(), "violations": [dict(v) for v in w.violations], "obligations": obligations,
@@ -90,7 +91,7 @@ def evaluate(run_seed, ops=None, pristine="budget", want_ops=False, extra_opts=N
 # ---------------------------------------------------------------------------
 # worker side
 
-def _worker_chunk(verif_seed, idxs, pristine, keep_seeded, nsamples):
+def _worker_chunk(verif_seed, idxs, pristine, keep_seeded, nsamples, deep=False):
     faulthandler.dump_traceback_later(600, exit=True)
     prop = _ctx["prop"]
     agg = {"runs": 0, "steps": 0, "nops": 0, "pristine_evals": 0, "probes": Counter(), "faults": Counter(),
@@ -99,7 +100,7 @@ def _worker_chunk(verif_seed, idxs, pristine, keep_seeded, nsamples):
     for idx in idxs:
         rs = mk_run_seed(verif_seed, prop, idx)
         try:
-            res = evaluate(rs, None, pristine=pristine, want_ops=(idx < nsamples))
+            res = evaluate(rs, None, pristine=pristine, want_ops=(idx < nsamples), extra_opts={"deep": deep})
         except ChildFailure as e:
             agg["harness_errors"].append((idx, str(e)[-2000:]))
             continue
@@ -123,7 +124,7 @@ def _worker_chunk(verif_seed, idxs, pristine, keep_seeded, nsamples):
 
 
 def run_batch(prop, verif_seed, n_runs=None, budget_s=None, workers=16, pristine="budget", chunk=40,
-              xproc=0, nsamples=2, start=0, stop_on_violation=True, keep_fps=False):
+              xproc=0, nsamples=2, start=0, stop_on_violation=True, keep_fps=False, deep=False):
     """Run indices start.. on `workers` forked workers, until n_runs done or budget_s elapsed."""
     t0 = time.time()
     total = {"runs": 0, "steps": 0, "nops": 0, "pristine_evals": 0, "probes": Counter(), "faults": Counter(),
@@ -140,12 +141,12 @@ def run_batch(prop, verif_seed, n_runs=None, budget_s=None, workers=16, pristine
             hi = nxt + chunk if end is None else min(nxt + chunk, end)
             if hi <= nxt:
                 return False
-            pending.add(ex.submit(_worker_chunk, verif_seed, list(range(nxt, hi)), pristine, keep_seeded, nsamples))
+            pending.add(ex.submit(_worker_chunk, verif_seed, list(range(nxt, hi)), pristine, keep_seeded, nsamples, deep))
             nxt = hi
             return True
         stop = False
         while True:
-            while not stop and len(pending) < workers * 2:
+            while not stop and len(pending) < (workers * 2 if budget_s is None else workers + 2):
                 if budget_s is not None and time.time() - t0 > budget_s:
                     stop = True
                     break
@@ -181,12 +182,24 @@ def run_batch(prop, verif_seed, n_runs=None, budget_s=None, workers=16, pristine
 # ---------------------------------------------------------------------------
 # cross-process oracle: the same runs in a fresh interpreter with another PYTHONHASHSEED
 
-def fresh_interpreter_digests(prop, repo, verif_seed, idxs, hashseed="12345"):
+def fresh_interpreter_digests(prop, repo, verif_seed, idxs, hashseed="12345", deep=False):
+    from concurrent.futures import ThreadPoolExecutor
     env = dict(os.environ, PYTHONHASHSEED=str(hashseed), PYTHONDONTWRITEBYTECODE="1")
-    cmd = [sys.executable, "-B", os.path.join(boot.VERIF, "semsim_main.py"), prop, "--repo", repo,
-           "--emit", ",".join(str(i) for i in idxs), "--seed", str(verif_seed)]
-    p = subprocess.run(cmd, env=env, capture_output=True, text=True, timeout=900)
-    if p.returncode != 0:
-        raise ChildFailure("fresh interpreter failed: %s" % p.stderr[-2000:])
-    line = [ln for ln in p.stdout.splitlines() if ln.startswith("EMIT ")][-1]
-    return json.loads(line[5:])
+
+    def one(part):
+        cmd = [sys.executable, "-B", os.path.join(boot.VERIF, "semsim_main.py"), prop, "--repo", repo,
+               "--emit", ",".join(str(i) for i in part), "--seed", str(verif_seed)] + \
+              (["--tier", "thorough"] if deep else [])
+        p = subprocess.run(cmd, env=env, capture_output=True, text=True, timeout=900)
+        if p.returncode != 0:
+            raise ChildFailure("fresh interpreter failed: %s %s" % (p.stdout[-1000:], p.stderr[-2000:]))
+        line = [ln for ln in p.stdout.splitlines() if ln.startswith("EMIT ")][-1]
+        return json.loads(line[5:])
+    idxs = list(idxs)
+    nparts = max(1, min(8, len(idxs) // 8))
+    parts = [idxs[i::nparts] for i in range(nparts)]
+    out = {}
+    with ThreadPoolExecutor(max_workers=nparts) as ex:
+        for d in ex.map(one, parts):
+            out.update(d)
+    return out
